@@ -96,8 +96,10 @@ class C12(Prop):
                 d = rng.sample(cur_names, rng.randint(1, len(cur_names) - 1))
                 if rng.random() < .2:
                     d.append('missing')
-                case['ops'].append({'op': 'drop', 'names': d})
                 keep = [i for i, n in enumerate(cur_names) if n not in d]
+                if not keep:
+                    continue        # a name carried by several columns drops them all: keep at least one column
+                case['ops'].append({'op': 'drop', 'names': d})
                 cur_names, cur_types = [cur_names[i] for i in keep], [cur_types[i] for i in keep]
             elif op == 'rename':
                 old = rng.choice(single + ['missing'])
